@@ -25,6 +25,9 @@ import Scico.Proofs.StepsPDHG
 import Scico.Proofs.StepsProxADMM
 import Scico.Proofs.StepsFISTA
 import Scico.Proofs.StepsExamples
+import Scico.Proofs.StepsRelax2
+import Scico.Proofs.StepsPGM2
+import Scico.Proofs.StepsStrong
 
 set_option linter.unusedSectionVars false
 
@@ -491,6 +494,65 @@ theorem C03_fista_rate (p : PGMParams Unit ℝ X) {G : Fn X} {L : ℝ} (h : FIST
       ≤ 2 * L * ‖s.x - xb‖ ^ 2 / ((k : ℝ) + 2) ^ 2 :=
   fista_rate p h xb hxb s hsL ht hv k
 
+/-- … and the dual residual reported by `norm_dual_residual()`, `‖Σ ρ_i C_iᵀ(z_i^{k+1} − z_i^k)‖`, when the adjoints are
+    bounded (`‖C_iᵀ w‖ ≤ B‖w‖`, automatic in finite dimension) -/
+theorem C03_admm_dual_residual_tendsto {alpha m : ℝ} {cons : List (Con X Z)} {uss : List Z}
+    {solveX : List Z → List Z → X → X} {F : Fn X} {xs : X} (H : RelaxHyp alpha m cons uss solveX F xs)
+    (ha : 0 < alpha) (ha2 : alpha < 2) (f : Option (X → ℝ)) (Bd : ℝ) (hB : 0 ≤ Bd)
+    (hbd : ∀ c ∈ cons, ∀ w, ‖c.Cadj w‖ ≤ Bd * ‖w‖) (s : RS X Z) (hb : RS.Base xs cons uss s) :
+    Filter.Tendsto (fun k => admmNormDualImpl (admmOfCons f alpha solveX cons)
+        (iter (admmSpecStep (admmOfCons f alpha solveX cons)) (k + 2) s.state)) Filter.atTop (nhds 0) := by
+  have hok := RS.next_ok alpha solveX hb
+  have h1 := RS.normDual_tendsto H ha ha2 f Bd hB hbd hok
+  refine h1.congr (fun k => ?_)
+  rw [(RS.iter_eq alpha f solveX cons (k + 2) s hb.hc).1]
+  rfl
+
+/-- the FISTA potential `E = 2t(t−1)(F(x) − F(x̄)) + L‖t v − (t−1) x − x̄‖²` (in the variables of the public state) does
+    not increase in one documented iteration whenever `t ≥ 1` (true on every reachable state) -/
+theorem C03_fista_potential (p : PGMParams Unit ℝ X) {G : Fn X} {L : ℝ} (h : FISTAHyp p G L) (xb : X)
+    (hxb : xb ∈ G.dom) (s : APGMState Unit ℝ X) (hsL : s.L = L) (ht : 1 ≤ s.t) (hdom : s.x ∈ G.dom ∨ s.t = 1) :
+    fistaE p G L xb (apgmSpecStep p s) ≤ fistaE p G L xb s ∧
+    (apgmSpecStep p s).x ∈ G.dom ∧ 1 ≤ (apgmSpecStep p s).t ∧ (apgmSpecStep p s).L = L :=
+  fista_potential_step p h xb hxb s hsL ht hdom
+
+/-- PGM with an ARBITRARY step-size hook (BB, adaptive BB, line searches, user objects): if the value `L` it returns at
+    this state is `≥` the Lipschitz constant `L_f`, the documented step does not increase the distance to any minimiser
+    and decreases the objective by at least `(L/2)‖x⁺ − x‖²` -/
+theorem C03_pgm_monotone_anyhook {σ : Type} (p : PGMParams σ ℝ X) {G : Fn X} (hp : IsProx G p.proxg) {Lf : ℝ}
+    (hLf : 0 < Lf) (hco : CoCoercive p.gradf Lf) (hd : DescentLemma p.f p.gradf Lf) (s : PGMState σ ℝ X)
+    (hL : Lf ≤ (p.pol.update s.mem s.L s.x s.x).1) {xs : X} (hk : G.Subgrad xs (-(p.gradf xs))) :
+    ‖(pgmSpecStep p s).x - xs‖ ≤ ‖s.x - xs‖ ∧
+    (s.x ∈ G.dom → p.f (pgmSpecStep p s).x + G.val (pgmSpecStep p s).x
+      ≤ p.f s.x + G.val s.x - (pgmSpecStep p s).L / 2 * ‖(pgmSpecStep p s).x - s.x‖ ^ 2) :=
+  pgm_anyhook_step p hp hLf hco hd s hL hk
+
+/-- strongly convex `f` (`∂f` `m`-strongly monotone, `m > 0`): from EVERY start the point returned by `minimizer()`
+    converges to the minimiser — PDHG (`alpha = 1`, linear `C`, `τσ‖C‖² < 1`), ProximalADMM (`μ ≥ ‖A‖²`, `ν ≥ ‖B‖²`),
+    LinearizedADMM (`μ‖C‖² ≤ ν`).  (ADMM: `C03_admm_converges`; PGM: `C03_pgm_converges`.) -/
+theorem C03_pdhg_padmm_ladmm_converge {m : ℝ} (hm : 0 < m) (F : Fn X) (hsm : StrongSub F m) :
+    (∀ (p : PDHGParams ℝ X Z) (xs : X) (zs : Z), PDHGHyp p F xs zs → ∀ (Lc theta : ℝ), PDHGRange p Lc theta →
+      ∀ s : PDHGState X Z,
+        Filter.Tendsto (fun k => pdhgMinimizer (iter (pdhgSpecStep p) k s)) Filter.atTop (nhds xs)) ∧
+    (∀ (p : PADMMParams ℝ X Z U) (G : Fn Z) (xs : X) (zs : Z) (us : U), PADMMHyp p F G xs zs us →
+      ∀ s : PADMMState X Z U,
+        Filter.Tendsto (fun k => padmmMinimizer (iter (padmmSpecStep p) k s)) Filter.atTop (nhds xs)) ∧
+    (∀ (p : LADMMParams ℝ X Z) (G : Fn Z) (xs : X) (us : Z), LADMMHyp p F G xs us →
+      ∀ s : LADMMState X Z,
+        Filter.Tendsto (fun k => ladmmMinimizer (iter (ladmmSpecStep p) k s)) Filter.atTop (nhds xs)) :=
+  ⟨fun p xs zs H _ _ R s => pdhg_x_tendsto p F xs zs H R hm hsm s,
+   fun p G xs zs us H s => padmm_x_tendsto p F G xs zs us H hm hsm s,
+   fun p G xs us H s => ladmm_x_tendsto p F G xs us H hm hsm s⟩
+
+/-- AcceleratedPGM, `m`-strongly convex `f`: `‖x_{k+1} − x*‖² ≤ 4L‖x_0 − x*‖²/(m (k+2)²)` for every `k`, hence
+    `minimizer() → x*` from every start -/
+theorem C03_fista_converges (p : PGMParams Unit ℝ X) {G : Fn X} {L m : ℝ} (h : FISTAHyp p G L) (hm : 0 < m)
+    (hs : GradStrongConvex p.f p.gradf m) {xs : X} (hk : G.Subgrad xs (-(p.gradf xs)))
+    (s : APGMState Unit ℝ X) (hsL : s.L = L) (ht : s.t = 1) (hv : s.v = s.x) :
+    (∀ k : Nat, ‖(iter (apgmSpecStep p) (k + 1) s).x - xs‖ ^ 2 ≤ 4 * L * ‖s.x - xs‖ ^ 2 / (m * ((k : ℝ) + 2) ^ 2)) ∧
+    Filter.Tendsto (fun k => apgmMinimizer (iter (apgmSpecStep p) k s)) Filter.atTop (nhds xs) :=
+  ⟨fun k => fista_x_rate p h hm hs hk s hsL ht hv k, fista_x_tendsto p h hm hs hk s hsL ht hv⟩
+
 /-- PGM: the objective is non-increasing along the whole trajectory (base step-size object, `L ≥` Lipschitz constant) -/
 theorem C03_pgm_objective_traj (p : PGMParams Unit ℝ X) {G : Fn X} {L : ℝ} (h : PGMHyp p G L)
     (hd : DescentLemma p.f p.gradf L) (s : PGMState Unit ℝ X) (hsL : s.L = L) (k : Nat) :
@@ -529,11 +591,32 @@ example (y0 x z1 z2 u1 u2 : X) :
   · exact idCon_base 1 (by norm_num) y0 z1 u1
   · exact idCon_base 2 (by norm_num) y0 z2 u2
 
+-- bounded adjoints of `C03_admm_dual_residual_tendsto` on the instance: `C_iᵀ = I`, `B = 1`
+example : ∀ c ∈ ([1, 2].map idCon : List (Con X X)), ∀ w, ‖c.Cadj w‖ ≤ 1 * ‖w‖ := by
+  intro c hc w; simp at hc; rcases hc with rfl | rfl <;> simp [idCon]
+-- an adaptive hook that doubles `L` (so `L ≥ L_f = 1` from `L_0 = 1` on) meets the hypothesis of `C03_pgm_monotone_anyhook`
+example (y0 : X) (s : PGMState Unit ℝ X) (hs : 1 ≤ s.L) :
+    let p : PGMParams Unit ℝ X := { exPGM y0 with pol := { kind := .bb, update := fun m L _ _ => (2 * L, m), getZ := fun _ => 0 } }
+    (1 : ℝ) ≤ (p.pol.update s.mem s.L s.x s.x).1 := by
+  intro p; show (1 : ℝ) ≤ 2 * s.L; linarith
 example (y0 : X) : PDHGHyp (exPDHG y0) (halfSq y0) y0 0 ∧ PDHGRange (exPDHG y0) 1 (1 / 2) :=
   ⟨exPDHG_hyp y0, exPDHG_range y0⟩
 example (y0 : X) : PADMMHyp (exPADMM y0) (halfSq y0) zeroFn y0 y0 0 := exPADMM_hyp y0
 example (y0 : X) : LADMMHyp (exLADMM y0) (halfSq y0) zeroFn y0 0 := exLADMM_hyp y0
 example (y0 : X) : FISTAHyp (exPGM y0) zeroFn 1 := exPGM_fista y0
+-- strong convexity on the instances: `∂(½‖·−y0‖²)` is 1-strongly monotone; function form for FISTA
+example (y0 : X) : StrongSub (halfSq y0) 1 := halfSq_strong y0
+example (y0 : X) : GradStrongConvex (exPGM y0).f (exPGM y0).gradf 1 := by
+  intro x y
+  simp only [exPGM]
+  have e : y - y0 = (x - y0) + (y - x) := by abel
+  rw [e, norm_add_sq_real]
+  linarith
+-- so e.g. PDHG on the instance converges from every start
+example (y0 : X) (s : PDHGState X X) :
+    Filter.Tendsto (fun k => pdhgMinimizer (iter (pdhgSpecStep (exPDHG y0)) k s)) Filter.atTop (nhds y0) :=
+  (C03_pdhg_padmm_ladmm_converge (U := X) (by norm_num : (0 : ℝ) < 1) (halfSq y0) (halfSq_strong y0)).1
+    (exPDHG y0) y0 0 (exPDHG_hyp y0) 1 (1 / 2) (exPDHG_range y0) s
 -- the FISTA bound on the instance: F(x_{k+1}) − F(y0) ≤ 2‖x_0 − y0‖²/(k+2)²
 example (y0 x0 : X) (k : Nat) :
     1 / 2 * ‖(iter (apgmSpecStep (exPGM y0)) (k + 1) (apgmInit 1 0 x0 ())).x - y0‖ ^ 2
